@@ -129,8 +129,9 @@ ADDENDA = {
  "C07": " Added (axiom-free): every training call of SimpleARTMAP, DualVigilanceART and TopoART leaves the wrapped module's vigilance as configured, for every kernel, mode, epsilon and reset function, through every exit path and pruning round (Wrap_rho.v).",
  "C06": " Added (axiom-free): the same batching theorems for SimpleARTMAP (whole state incl. the category-to-class map and the stored targets; first call and later calls; any partition into batches; fit = any batching on a fresh estimator) for ARTMAP (B side + A side on the batch's B labels) and for the DeepARTMAP / SMART layer chain (SAM_hist.v, Deep_hist.v).",
  "C08": " Added (axiom-free, Wrap_pred.v): DualVigilanceART and SimpleARTMAP predict row by row, each row gets the map image of the base module's oldest arg-max category, and a DualVigilanceART prediction is < n_clusters. The purity snapshot compares the whole __dict__ (remembered widths included; CVIART.predict creating dim_ was a genuine defect, repaired).",
+ "C10": " Added: the activation of a category is the gamma-weighted sum of the channel modules' own activations (Fusion_skip.v), and - the permutation clause at the level of one category - the fused activation depends only on the multiset of (channel activation, gamma) pairs and the fused vigilance test only on the multiset of per-channel verdicts (Fusion_perm.v; exact arithmetic). Oracles: binary rows as int64 / uint8 / float32, one-channel FusionART vs the bare module as A side of SimpleARTMAP with the channel parameters restored.",
  "C11": " Added: with channels withheld the activation IS the gamma-weighted sum of the remaining channels' own activations (Fusion_skip.v; a skipped channel contributes 0 since /repo ee23ec6), prepare/restore with skipped channels (Fusion_prep.v). Oracles: arbitrary fillers (NaN, out of range, not complement coded) in the skipped columns, step_pred with negative indices, non-dyadic gammas with all but one channel withheld (rounding), an ART1 channel withheld, channels of mixed dtypes.",
- "C13": " Added: every base category obeys the base module's upper-vigilance bound after every whole fit call (Fuzzy, Hypersphere, Ellipsoid instances of the generic theorem in Wrap_bound.v).",
+ "C13": " Added: every base category obeys the base module's upper-vigilance bound after every whole fit call (Fuzzy, Hypersphere, Ellipsoid instances of the generic theorem in Wrap_bound.v); the map invariant after every whole fit / partial_fit call (DualVig_reach.v).",
  "C14": " Added: both winners passed a vigilance at least as large as the configured one under every mode that never lowers it (Topo_bound.v), with the pre-fix search kept as a refuted variant (C14_search_before_fix_refuted); re-labelling at a pruning round (Topo_labels.v).",
  "C18": " Added oracles: a wrong-width matrix at the FIRST call for the modules whose hyper-parameters fix the width (ART2A, BayesianART, GaussianART: three defects repaired), integer-dtype invalid batches.",
  "C19": " The protocol model now states validate-then-assign (a rejected set_params changes nothing: C19_rejected_call_changes_nothing; the old behaviour is kept as set_params_before_fix_refuted). Oracles: rejected calls leave all params and attributes unchanged, module-valued entries in the set_params(get_params) round trip, doubly nested names.",
